@@ -4,7 +4,9 @@
    axis-letter table and strain_increment (over the eigenvalue oracle) are GENERATED from
    /repo on every run (gen/Gen_velocity.v, gen/Gen_velocity_utils.v); the public wrappers,
    _is_inside, _ivp_func, the stateful terminal event and the time-stamp post-processing are
-   the hand-written Model_pathlines.v.  flow: 0 simple_shear_2d, 1 cell_2d, 2 corner_2d;
+   the hand-written Model_pathlines.v, which the instance lemmas of Inst_pathlines.v equate (at
+   dimensions 1, 2, 3 / 1, 2, 3 solver time stamps) with gen/Gen_pathlines.v, GENERATED from
+   pydrex/pathlines.py on every run (the `C18_generated_*` statements are about that code).  flow: 0 simple_shear_2d, 1 cell_2d, 2 corner_2d;
    letters: 0 X, 1 Y, 2 Z.  A gradient G is a flat row-major 3x3 array: entry (k,m) = G(3k+m).
    `upd x m s` is x with coordinate m replaced by s, so
    `is_derive (fun s => field (upd x m s) k) (x m) g` says  d field_k / d x_m (x) = g.
@@ -16,7 +18,8 @@ From Coq Require Import Reals ZArith List.
 From Coquelicot Require Import Coquelicot.
 From PV Require Import Num NumR Model_pathlines Proofs_velocity Proofs_pathlines.
 From PV Require Import Model_pathline_session Proofs_pathline_session.
-From PV.gen Require Import Gen_velocity Gen_velocity_utils.
+From PV Require Import Inst_pathlines Proofs_pathline_gen.
+From PV.gen Require Import Gen_velocity Gen_velocity_utils Gen_pathlines.
 Import ListNotations.
 Open Scope R_scope.
 
@@ -263,3 +266,135 @@ Example C18_session_nonvacuous :
   ((forall a b, Z.eqb a b = true <-> a = b) /\
    (forall a b, toy_key a = toy_key b -> toy_solve_flow a = toy_solve_flow b)).
 Proof. exact session_hypotheses_satisfiable. Qed.
+
+(* --- pydrex.pathlines as GENERATED from the source (gen/Gen_pathlines.v) ------------------- *)
+(* `A l` is the array of the list l; `lift_v 3 gv` / `lift_g 3 gg` are the user callables reading
+   their point from an array.  Points of dimension 3. *)
+Theorem C18_generated_is_inside : forall pt mn mx : list R,
+  length pt = 3%nat -> length mn = 3%nat -> length mx = 3%nat ->
+  (in_box pt mn mx -> @k_is_inside_n3 NumR (A pt) (A mn) (A mx) = 1) /\
+  (~ in_box pt mn mx -> @k_is_inside_n3 NumR (A pt) (A mn) (A mx) = 0).
+Proof. exact gen_is_inside_spec. Qed.
+
+(* the three size mismatches that were traced: the assertion fires for all values *)
+Theorem C18_generated_is_inside_sizes : forall pt mn mx : arr R,
+  @k_is_inside_n3_3_2 NumR pt mn mx = Err AssertionError /\
+  @k_is_inside_n3_2_3 NumR pt mn mx = Err AssertionError /\
+  @k_is_inside_n2_3_3 NumR pt mn mx = Err AssertionError.
+Proof. exact gen_is_inside_sizes. Qed.
+
+Theorem C18_generated_ivp_func : forall (pt mn mx : list R),
+  length pt = 3%nat -> length mn = 3%nat -> length mx = 3%nat ->
+  forall (t : R) (gv : list R -> res (list R)) (gg : arr R -> res (arr R)),
+  (in_box pt mn mx ->
+     @k_ivp_func_n3 NumR t (A pt) (lift_v 3 gv) gg (A mn) (A mx) = res_map A (gv pt)) /\
+  (~ in_box pt mn mx ->
+     @k_ivp_func_n3 NumR t (A pt) (lift_v 3 gv) gg (A mn) (A mx) = Ok (A [0; 0; 0])).
+Proof. exact gen_ivp_func_spec. Qed.
+
+(* the Jacobian handed to the solver is the velocity-GRADIENT callable inside the box (hence 2 x the
+   Jacobian of the right-hand side for simple shear, see the known findings), zeros outside *)
+Theorem C18_generated_ivp_jac : forall (pt mn mx : list R),
+  length pt = 3%nat -> length mn = 3%nat -> length mx = 3%nat ->
+  forall (t : R) (gv : arr R -> res (arr R)) (gg : list R -> res (arr R)),
+  (in_box pt mn mx ->
+     @k_ivp_jac_n3 NumR t (A pt) gv (lift_g 3 gg) (A mn) (A mx) = gg pt) /\
+  (~ in_box pt mn mx ->
+     exists Z, @k_ivp_jac_n3 NumR t (A pt) gv (lift_g 3 gg) (A mn) (A mx) = Ok Z /\ forall k, Z k = 0).
+Proof. exact gen_ivp_jac_spec. Qed.
+
+Theorem C18_ivp_jac_spec : forall (get_gradient : list R -> res (arr R)) (pt mn mx : list R),
+  length pt = length mn -> length mn = length mx ->
+  (in_box pt mn mx -> @ivp_jac NumR get_gradient mn mx pt = get_gradient pt) /\
+  (~ in_box pt mn mx ->
+     exists Z, @ivp_jac NumR get_gradient mn mx pt = Ok Z /\ forall k, Z k = 0).
+Proof. exact ivp_jac_spec_proof. Qed.
+
+(* ONE call of the generated event closure is one step of the state machine (any state, any call) *)
+Theorem C18_generated_event_step :
+  forall (tp s t : R) (gv : arr R -> res (arr R)) (gg : list R -> res (arr R)) (eig : arr R -> R) (pt mn mx : list R),
+  length pt = 3%nat -> length mn = 3%nat -> length mx = 3%nat ->
+  @k_terminate_n3 NumR tp s t (A pt) gv (lift_g 3 gg) eig (A mn) (A mx)
+  = res_map ev_out (@ev_step NumR gg eig mn mx (@mk_ev NumR tp s) (t, pt)).
+Proof. exact terminate_inst_3. Qed.
+
+(* any HISTORY of calls of the generated closure, its two `nonlocal` variables threaded from call
+   to call: along monotonically backward in-domain calls it returns max_strain minus the running
+   Riemann sum of the strain rate *)
+Theorem C18_generated_event_history :
+  forall (gv : arr R -> res (arr R)) (gg : list R -> res (arr R)) (eig : arr R -> R) (mn mx : list R),
+  length mn = 3%nat -> length mx = 3%nat ->
+  forall (calls : list (R * list R)) (tp s : R),
+  List.Forall (fun c => length (snd c) = 3%nat) calls ->
+  List.Forall (good_call gg mn mx) calls -> backward tp calls ->
+  gen_event_run gv (lift_g 3 gg) eig (A mn) (A mx) tp s calls
+  = Ok (last (map fst calls) tp, s - riemann gg eig tp calls, back_values gg eig tp s calls).
+Proof. exact gen_event_monotone. Qed.
+
+(* the strain clause as far as the event semantics gives it: started from (0, max_strain), if the last
+   returned value is not below -max_strain/4 the Riemann sum of the strain rate over the calls is at most
+   1.25 max_strain (that the solver's accepted steps form such a history, and Riemann sum vs integral,
+   are NOT proved: measured) *)
+Theorem C18_generated_event_strain_bound :
+  forall (gv : arr R -> res (arr R)) (gg : list R -> res (arr R)) (eig : arr R -> R) (mn mx : list R),
+  length mn = 3%nat -> length mx = 3%nat ->
+  forall (calls : list (R * list R)) (ms a b : R) (vs : list R),
+  List.Forall (fun c => length (snd c) = 3%nat) calls ->
+  List.Forall (good_call gg mn mx) calls -> backward 0 calls ->
+  gen_event_run gv (lift_g 3 gg) eig (A mn) (A mx) 0 ms calls = Ok (a, b, vs) ->
+  b = ms - riemann gg eig 0 calls /\ last vs ms = b /\
+  (- ms / 4 <= b -> riemann gg eig 0 calls <= 1.25 * ms) /\ (b = 0 -> riemann gg eig 0 calls = ms).
+Proof. exact gen_event_strain_bound. Qed.
+
+(* what get_pathline asks solve_ivp for (vector layout: Model_pathlines.solver_request) *)
+Theorem C18_generated_request : forall (fl mn mx : list R) (ms : R), length fl = 3%nat ->
+  let rq := @k_request_n3 NumR (A fl) (A mn) (A mx) ms in
+  rq 0%nat = 0 /\ rq 1%nat < 0 /\ rq 2%nat = 2 /\ [rq 3%nat; rq 4%nat; rq 5%nat] = fl /\
+  0 < rq 6%nat /\ 0 < rq 7%nat /\ rq 8%nat = 5 /\ rq 9%nat = 1 /\ rq 10%nat = 1 /\ rq 11%nat = 0 /\
+  rq 12%nat = 1 /\ rq 13%nat = 1 /\ rq 14%nat = 1 /\ rq 15%nat = 1 /\ rq 16%nat = 0 /\ rq 17%nat = 0 /\
+  rq 18%nat = 0 /\ rq 19%nat = 0 /\ rq 20%nat = ms /\ rq 21%nat = 0.
+Proof. exact gen_request_spec. Qed.
+
+Theorem C18_generated_request_kwargs : forall (fl mn mx : list R) (ms atol rtol fs mxs : R), length fl = 3%nat ->
+  let rq := @k_request_kw_n3 NumR (A fl) (A mn) (A mx) ms atol rtol fs mxs in
+  let rq0 := @k_request_n3 NumR (A fl) (A mn) (A mx) ms in
+  rq 6%nat = atol /\ rq 7%nat = rtol /\ rq 8%nat = 3 /\ rq 16%nat = fs /\ rq 17%nat = mxs /\ rq 21%nat = 4 /\
+  forall k, (k < 22)%nat -> k <> 6%nat -> k <> 7%nat -> k <> 8%nat -> k <> 16%nat -> k <> 17%nat -> k <> 21%nat ->
+            rq k = rq0 k.
+Proof. exact gen_request_kw_spec. Qed.
+
+(* the generated post-processing at three solver time stamps is the list model (all 15 instances are in
+   Inst_pathlines.v; regular_steps = 0 returns the single EARLIEST time, not 0) *)
+Theorem C18_generated_timestamps : forall ts : list R, length ts = 3%nat ->
+  @k_post_m3_none NumR (A ts) = A (@timestamps NumR ts None) /\
+  @k_post_m3_s2 NumR (A ts) = A (@timestamps NumR ts (Some 2%nat)) /\
+  @k_post_m3_s0 NumR (A ts) = A [last ts 0].
+Proof. exact gen_timestamps_m3. Qed.
+
+(* solve_ivp as an oracle (ts = path.t, sol = path.sol); hypotheses relative to the GENERATED request,
+   each checked on the real routine at run time: the integration starts at t_span[0], proceeds towards
+   t_span[1], and the dense output at the start reproduces y0.  Then the returned time stamps are
+   strictly increasing and end at 0, and the returned interpolant at the last time stamp IS the requested
+   final location *)
+Theorem C18_pathline_ends_at_final_location :
+  forall (fl mn mx : list R) (ms : R) (ts : list R) (sol : R -> list R) (steps : option nat),
+  length fl = 3%nat ->
+  let rq := @k_request_n3 NumR (A fl) (A mn) (A mx) ms in
+  hd 0 ts = rq 0%nat ->
+  (rq 1%nat < rq 0%nat -> strictly_decreasing ts) ->
+  sol (rq 0%nat) = [rq 3%nat; rq 4%nat; rq 5%nat] ->
+  (2 <= length ts)%nat -> (steps = None \/ exists n, steps = Some n /\ (0 < n)%nat) ->
+  let out := @timestamps NumR ts steps in
+  strictly_increasing out /\ last out 0 = 0 /\ sol (last out 0) = fl.
+Proof. exact pathline_ends_at_final_proof. Qed.
+
+Example C18_pathline_nonvacuous :
+  (let fl := [1; 2; 3] in let ts := [0; -1] in let sol := fun _ : R => fl in
+   let rq := @k_request_n3 NumR (A fl) (A [0; 0; 0]) (A [4; 4; 4]) 1 in
+   hd 0 ts = rq 0%nat /\ (rq 1%nat < rq 0%nat -> strictly_decreasing ts) /\
+   sol (rq 0%nat) = [rq 3%nat; rq 4%nat; rq 5%nat] /\ (2 <= length ts)%nat) /\
+  (let calls := [(-1, [1 / 2; 0; 0]); (-2, [1 / 4; 0; 0])] in
+   List.Forall (fun c : R * list R => length (snd c) = 3%nat) calls /\
+   List.Forall (good_call toy_gradient3 [-1; -1; -1] [1; 1; 1]) calls /\ backward 0 calls /\
+   riemann toy_gradient3 toy_eigmax 0 calls = 3 / 4).
+Proof. exact (conj pathline_hypotheses_satisfiable event_history_hypotheses_satisfiable). Qed.
